@@ -1,9 +1,11 @@
-(* Extraction of the WTO model and of the verified checker.  Only ExtrOcamlBasic. *)
+(* Extraction of the WTO model and of the verified checker.  Only ExtrOcamlBasic.
+   BinNums.Z / N are extracted only because the shared ocaml/zio.ml.in mentions the types. *)
 Require Import Extraction ExtrOcamlBasic.
+From Coq Require Import BinNums.
 From CrabV Require Import Fix.Wto Fix.WtoCheck.
 Extraction Language OCaml.
 Set Extraction KeepSingleton.
 Extraction "../ocaml/gen/wto_model.ml"
   Wto.graph Wto.comp Wto.build Wto.nesting Wto.fuel_for
   WtoCheck.flat WtoCheck.struct_ok WtoCheck.nesting_ok WtoCheck.check WtoCheck.wto_ok
-  WtoCheck.nodupb WtoCheck.closedb WtoCheck.edges_ok WtoCheck.subset WtoCheck.reach_n.
+  WtoCheck.nodupb WtoCheck.closedb WtoCheck.edges_ok WtoCheck.subset WtoCheck.reach_n BinNums.Z BinNums.N.
